@@ -29,3 +29,6 @@ Definition guards_p (d : dcase) : list bool :=
 Definition run (cases : list (dcase * pobs)) : list N := report pobs_eqb model_p guards_p cases.
 (* bit 6: the model itself says the property holds (used by the harness only as a cross-check of the oracle) *)
 Definition run_holds (cases : list dcase) : list N := map (fun d => if C05_holds d then 1 else 0) cases.
+
+(* well-formedness of the cases the harness generates (hypothesis of C05_partial): 1 = wf, 0 = not *)
+Definition run_wf (cases : list dcase) : list N := map (fun d => if wf_dcase d then 1 else 0) cases.
